@@ -115,6 +115,9 @@ Consume ==
                          LET v == Check(s, e) IN
                          IF v = <<>> THEN s' = Next(s, e) /\ bad' = FALSE
                          ELSE Report(l, v, e) /\ bad' = TRUE /\ s' = s
+                    [] e.ev = "bulk" ->
+                         IF BulkOk(s, e) THEN s' = Bulk(s, e) /\ bad' = FALSE
+                         ELSE Report(l, <<"ALL:bulk-population-on-a-state-the-reference-does-not-have">>, e) /\ bad' = TRUE /\ s' = s
                     [] e.ev = "dump" ->
                          LET v == DumpRules(s.objs, e) IN
                          IF v = <<>> THEN UNCHANGED <<s, bad>>
